@@ -6,6 +6,7 @@ CONSTANTS
   MaxCrashes = 0
   MaxRuns = 1
   Tolerated <- NoTol
+  FnOut = FALSE
   Gen = "off"
 INVARIANTS NoClauseViolated InvQuiescentAtRelease InvDurLagsMem
 CHECK_DEADLOCK TRUE
